@@ -27,6 +27,9 @@ func init() {
 		NotDecided: "Semantic equivalence with the FRR-mode output (needs an interpretation of both); behaviour of frr-k8s itself.",
 		Run:        runC15,
 		Mutants: []Mutant{
+			{Name: "reconcile-compares-bgp-section-only", File: "internal/k8s/controllers/frrk8s_config_controller.go",
+				Old: "\tif reflect.DeepEqual(current.Spec, r.desiredConfiguration.Spec) {",
+				New: "\tif reflect.DeepEqual(current.Spec.BGP, r.desiredConfiguration.Spec.BGP) {", Expect: "K8S-DELIVER"},
 			{Name: "community-group-rebuilt-from-other-key", File: "internal/bgp/frrk8s/frrk8s.go",
 				Old: "\t\t\t\tprefixesForCommunity[comm] = append(prefixesForCommunity[comm], prefix)\n", New: "\t\t\t\tprefixesForCommunity[comm] = append(prefixesForCommunity[c.String()], prefix)\n", Expect: "ACCUMULATE"},
 			{Name: "dump-retracts-in-callers-object", File: "internal/bgp/frrk8s/frrk8s.go",
@@ -67,6 +70,8 @@ func runC15(p *chk.Prog, r *chk.Report) {
 	c15Password(p, r)
 	c15Node(p, r)
 	c15Params(p, r)
+	// what reaches the API object is the handed-over specification (K8S-DELIVER, shared with C19)
+	c19K8s(p, r)
 	y := r.Rule("BACKEND-AGREE", "E sibling", "the frr and frrk8s back ends apply the same validation bound (63 communities) in Set, store only the complete validated list, and both restore the previous advertisements when regeneration fails (the per-package obligations are listed under VALIDATE)", 1)
 	_ = y
 	c14Validate(p, r, frrPkg)
